@@ -31,6 +31,12 @@ def gen_case(rng, zs, k):
         if el.dr_e_res.size:
             row = int(rng.integers(el.dr_e_res.size)) if k % 4 else int(np.argmin(el.dr_cs))
             e = float(el.dr_e_res[row] + rng.normal() * w * 0.3)
+            if k % 6 >= 4:
+                # in the wings: 3–7 sigma above the highest / below the lowest resonance (or of a random one), where a Gaussian is
+                # ~1 % … 1e-9 of its peak — DR still enters "only if a width is given", not "only near a resonance"
+                sg = w / 2.35482; s_ = float(rng.uniform(3.0, 7.0))
+                edge = [float(el.dr_e_res.max()) + s_ * sg, float(el.dr_e_res.min()) - s_ * sg, float(el.dr_e_res[row]) + s_ * sg][k % 3]
+                if edge > 1.0: e = edge
     kind = k % 5
     if kind in (0, 1):
         N0 = None
